@@ -6,6 +6,7 @@ from __future__ import annotations
 
 import json
 import os
+import sys
 
 from . import core
 from .core import Evidence, Reporter, run_tlc, need_ok
@@ -109,6 +110,59 @@ def judge_events(ev, rep, val, timeout=3000):
             ev.sample({"event": e["act"], "verdict": "accepted"}, limit=8)
 
 
+def suite_trace(prop, tier, ev, rep, kinds, files):
+    """Binding B over the repository's own tests: run them under the external recorder and let TLC judge
+    every recorded public call (spec/TraceSuite.tla)."""
+    import subprocess
+    import tempfile
+    from .trace import Validator
+    fd, out = tempfile.mkstemp(prefix="verif_suite_", suffix=".ndjson")
+    os.close(fd)
+    env = dict(os.environ)
+    env.update({"COMPMEC_NURBS_VERIF": "1", "VERIF_TRACE_OUT": out,
+                "PYTHONPATH": os.path.join(core.REPO, "src") + os.pathsep + core.VERIF})
+    cmd = [sys.executable, "-m", "pytest", "-q", "-p", "no:cacheprovider", "-p", "harness.recorder",
+           "--timeout=900", "-x", "--co"] if False else \
+          [sys.executable, "-m", "pytest", "-q", "-p", "no:cacheprovider", "-p", "harness.recorder", "--timeout=900"] + files
+    try:
+        proc = subprocess.run(cmd, cwd=core.REPO, env=env, stdout=subprocess.PIPE, stderr=subprocess.STDOUT, text=True,
+                              timeout=1800)
+        tail = proc.stdout.strip().splitlines()[-1] if proc.stdout.strip() else ""
+        val = Validator("TraceSuite.tla", "TraceSuite.cfg")
+        n = 0
+        with open(out) as f:
+            for line in f:
+                e = json.loads(line)
+                if e.get("kind") == "recorder_error":
+                    raise core.MachineryError(f"recorder failed: {e}")
+                if e["kind"] in kinds:
+                    e.pop("id", None)
+                    val.add_raw(e)
+                    n += 1
+    finally:
+        if os.path.exists(out):
+            os.unlink(out)
+    if n == 0:
+        raise core.MachineryError(f"the recorder produced no events ({tail})")
+    verdicts, unknown, stats = val.run()
+    b = ev.extra.setdefault("suite_trace", {"pytest": tail, "events_judged_by_TLC": 0, "ambiguous_rank_events": 0,
+                                            "failing_events": 0, "by_call": {}})
+    b["events_judged_by_TLC"] += len(verdicts)
+    ev.states += stats["states"]
+    ev.transitions += stats["generated"]
+    ev.validated += len(verdicts)
+    for e, _ in val.events:
+        key = f"{e['kind']}.{e['name']}"
+        b["by_call"][key] = b["by_call"].get(key, 0) + 1
+        fails = verdicts.get(e["id"]) or []
+        if any(f.startswith("?") for f in fails):
+            b["ambiguous_rank_events"] += 1
+        fails = [f for f in fails if not f.startswith("?")]
+        if fails:
+            b["failing_events"] += 1
+            rep.violation(f"suite:{e['kind']}.{e['name']}:{'+'.join(sorted(fails))}", {"event": e, "clauses": fails})
+
+
 def finish(ev, rep):
     code = rep.finish()
     ev.write()
@@ -121,6 +175,7 @@ def c03(tier):
     rep = Reporter("C03", ev)
     cfg = "MC_KnotVector_quick.cfg" if tier == "quick" else "MC_KnotVector_thorough.cfg"
     model_replay("C03", tier, ev, rep, "MC_KnotVector.tla", cfg)
+    suite_trace("C03", tier, ev, rep, {"kv"}, ["tests/test_knotspace.py", "tests/test_splinecurve.py"] if tier == "quick" else [])
     ev.assumptions += ["knot values are exact rationals in this run (float behaviour: C16/C18)",
                        "bounded universe: see spec/MC_KnotVector*.cfg"]
     return finish(ev, rep)
@@ -291,7 +346,14 @@ def c18(tier):
     return finish(ev, rep)
 
 
-c15 = simple("C15", [("MC_Machine.tla", "MC_Machine_TIER.cfg"), ("MC_Curve.tla", "MC_Curve_misc_quick.cfg")])
+def c15(tier):
+    ev = Evidence("C15", tier, core.seed())
+    rep = Reporter("C15", ev)
+    model_replay("C15", tier, ev, rep, "MC_Machine.tla", f"MC_Machine_{tier}.cfg")
+    model_replay("C15", tier, ev, rep, "MC_Curve.tla", "MC_Curve_misc_quick.cfg")
+    suite_trace("C15", tier, ev, rep, {"cv"}, ["tests/test_splinecurve.py", "tests/test_rationalcurve.py",
+                                                "tests/test_beziercurve.py"] if tier == "quick" else [])
+    return finish(ev, rep)
 
 
 def c16(tier):
@@ -312,9 +374,60 @@ def c16(tier):
     for module, cfg in scen:
         for mode in modes:
             model_replay_cached("C16", tier, ev, rep, module, cfg, mode, cache)
+    # operations whose result the spec does not pin down (forced removal / reduction, lossy fitting): the SAME
+    # TLC-generated call is executed with Fraction data and with float data and the two results are compared
+    for module, cfg in [("MC_Curve.tla", "MC_Curve_remove_quick.cfg"), ("MC_Curve.tla", "MC_Curve_decrease_quick.cfg"),
+                        ("MC_Curve.tla", "MC_Curve_fitcurve_quick.cfg")]:
+        cross_mode(ev, rep, module, cfg, cache, limit=600 if tier == "quick" else None)
     ev.assumptions += ["float modes compare with the exact spec value to 1e-9 relative on the small, well-conditioned universe",
                        "relationally specified results (tolerance-guarded removal etc.) are judged only in exact mode"]
     return finish(ev, rep)
+
+
+def cross_mode(ev, rep, module, cfg, cache, limit=None):
+    """same call, Fraction data vs float data: equal outcome => equal result (1e-7 relative: these are
+    least-squares solves), for the transitions whose result is judged relationally (rel = sem)"""
+    from .replay import _paths, state_key
+    key = (module, cfg)
+    if key not in cache:
+        res = run_tlc(module, cfg)
+        need_ok(res, cfg)
+        ev.add_tlc(res, cfg)
+        cache[key] = res
+    res = cache[key]
+    lib = core.import_lib()
+    rx, rf = Replayer(lib, "fraction"), Replayer(lib, "float")
+    recs = [t for t in res.records if t["ret"].get("rel") == "sem" and t["d"] == 1 or
+            (t["ret"].get("rel") == "sem" and t["act"]["name"] in ("CvKnotRemove", "CvDegreeDecrease"))]
+    if limit:
+        recs = recs[:: max(1, len(recs) // limit)]
+    n = 0
+    for t in recs:
+        a = t["act"]
+        if a["name"] not in ("CvKnotRemove", "CvDegreeDecrease", "CvFitCurve"):
+            continue
+        if a.get("tol", ["none"])[0] != "none" and a["name"] != "CvFitCurve":
+            continue  # tolerance decisions near the threshold may legitimately differ between number types
+        lx, lf = rx.build(t["pre"]), rf.build(t["pre"])
+        cx, vx, ex = rx.execute(lx, a)
+        cf, vf, ef = rf.execute(lf, a)
+        n += 1
+        if cx != "ok" or cf != "ok":
+            if cx != cf:
+                rep.violation(f"crossmode:{a['name']}:outcome", {"transition": t, "failures": [f"Fraction data: {cx} ({ex}), float data: {cf} ({ef})"], "mode": "float"})
+            continue
+        px, pf = lx[a["obj"]], lf[a["obj"]]
+        ok = len(px.ctrlpoints) == len(pf.ctrlpoints) and all(
+            abs(float(x) - float(y)) <= 1e-7 * max(1.0, abs(float(x))) for x, y in zip(px.ctrlpoints, pf.ctrlpoints))
+        if ok and (px.weights is None) == (pf.weights is None) and px.weights is not None:
+            ok = all(abs(float(x) - float(y)) <= 1e-7 * max(1.0, abs(float(x))) for x, y in zip(px.weights, pf.weights))
+        if not ok:
+            rep.violation(f"crossmode:{a['name']}:result",
+                          {"transition": t, "failures": [f"Fraction data gives {[str(x) for x in px.ctrlpoints]}, float data gives {[float(y) for y in pf.ctrlpoints]}"], "mode": "float"})
+        else:
+            ev.sample({"crossmode": a, "fraction": [str(x) for x in px.ctrlpoints][:4], "float": [float(y) for y in pf.ctrlpoints][:4]}, limit=9)
+    ev.validated += n
+    ev.extra["cross_mode_compared"] = ev.extra.get("cross_mode_compared", 0) + n
 
 
 def model_replay_cached(prop, tier, ev, rep, module, cfg, mode, cache):
